@@ -293,7 +293,10 @@ impl Console for SimConsole {
             Ok(b) => self.push(Event::Fill { who, got: format!("{}", b.len()) }),
             Err(e) => {
                 self.push(Event::Fill { who, got: format!("err:{:?}", e.kind()) });
-                self.push(Event::Line { who, res: LineRes::Err(format!("{:?}", e.kind())) });
+                // EINTR is not a failed line: every std reader built on fill_buf tries again
+                if e.kind() != io::ErrorKind::Interrupted {
+                    self.push(Event::Line { who, res: LineRes::Err(format!("{:?}", e.kind())) });
+                }
             }
         }
         self.last_fill = r.as_ref().map(|b| b.clone()).unwrap_or_default();
